@@ -38,7 +38,7 @@ LEVEL_TEXT = ('exhaustive over all pairs of small texts incl. every trailing-new
               'lines; all diff hunks shapes up to 5 lines are covered, longer texts only through the same code paths')
 
 BASE = ['a', 'b', 'c', '']
-EXT = ['a', 'b', '-x', '+x', '@x', '\\x', 'x\ry', 'x\r', 'p\x0cq']
+EXT = ['a', 'b', '-x', '+x', '--x', '++x', '@x', '\\x', 'x\ry', 'x\r', 'p\x0cq']   # '--x' / '++x': a removed / added line that looks like a file header in the patch
 NAMES = ['a.ml', 'a.mli', 'b.ml']
 PTEXTS = ['a\nb\nc\n', 'a\nx\nc\n', 'a\nb', '']
 
